@@ -328,6 +328,11 @@ func genC04(tier string, seed uint64, run int) *Scenario {
 		mode = []int{0, 3, 1, 2}[k%4]
 		// proofs enabled in three of four ECDSA runs (the production path)
 		p["noproofs"] = k%5 == 4
+		if k%8 == 4 || k%8 == 0 {
+			// an old committee whose session id has a leading zero byte (ssid.go); k%8 == 0 is the run with four
+			// new members and every proof switched on
+			p["shortssid"] = true
+		}
 		p["signsubsets"] = 1
 		if k%8 == 0 {
 			// a new committee with a threshold above 2 (powers beyond the square in the share-point evaluation)
